@@ -95,7 +95,7 @@ def srp_db(users=(("alice", "wonderland"),), bits=1024):
             db = VerifierDB()
             db.create()
             for u, p in users:
-                db[u] = VerifierDB.makeVerifier(u, p, bits)
+                db[u.encode()] = VerifierDB.makeVerifier(u, p, bits)
         finally:
             DET.current = prev
         _srp_db[key] = db
@@ -230,3 +230,37 @@ def read_all(pair, side, limit=1 << 22):
             continue
         return bytes(got), o
     return bytes(got), None
+
+
+# ---------------------------------------------------------------------------
+# pinning both sides to exactly one (version, suite) through public settings
+# ---------------------------------------------------------------------------
+def pin(suite, version, etm=True, cred_name=None, c_extra=None, s_extra=None):
+    """suite: vlib.iana.Suite. Returns (client opts, server opts)."""
+    version = tuple(version)
+    kw = dict(minVersion=version, maxVersion=version,
+              cipherNames=[suite.cipher_setting],
+              macNames=[suite.mac_setting], useEncryptThenMAC=etm)
+    if not suite.tls13:
+        kw["keyExchangeNames"] = [suite.kx_setting]
+    ckw = dict(kw)
+    skw = dict(kw)
+    ckw.update(c_extra or {})
+    skw.update(s_extra or {})
+    client = {"settings": mk_settings(**ckw)}
+    server = {"settings": mk_settings(**skw)}
+    auth = suite.auth
+    if suite.tls13:
+        server["cred"] = cred_name or "rsa"
+    elif suite.kx == "srp":
+        client["mode"] = "srp"
+        server["verifierDB"] = srp_db()
+        if auth == "rsa":
+            server["cred"] = cred_name or "rsa"
+    elif auth is None:
+        client["mode"] = "anon"
+        server["anon"] = True
+    else:
+        server["cred"] = cred_name or {"rsa": "rsa", "ecdsa": "ecdsa",
+                                       "dsa": "dsa"}[auth]
+    return client, server
